@@ -119,7 +119,7 @@ class _CRTFParser:
     # valid definition (region or annotation) types
     valid_definition = ('box', 'centerbox', 'rotbox', 'poly', 'circle',
                         'annulus', 'ellipse', 'line', 'vector', 'text',
-                        'symbol')
+                        'symbol', 'point')
 
     # valid parameters (attributes)
     valid_global_keys = ('coord', 'frame', 'corr', 'veltype', 'restfreq',
@@ -296,6 +296,7 @@ class _CRTFRegionParser:
                      'line': ['c', 'c'],
                      'vector': ['c', 'c'],
                      'symbol': ['c', 's'],
+                     'point': ['c'],
                      'text': ['c', 's']}
 
     def __init__(self, global_meta, include, type_, region_type, reg_str,
